@@ -209,7 +209,7 @@ def run(ctx):
                        'values 1..6 (cannot carry a payload byte) are outside the domain']
     pairs = [(L, P) for L in GRID for P in GRID]
     parallel(ctx, run_pairs, [{'pairs': pairs[i::16]} for i in range(16)])
-    run_random(ctx, 1500 if ctx.thorough else 150)
+    run_random(ctx, 8000 if ctx.thorough else 150)
 
 
 def replay(case):
